@@ -301,8 +301,13 @@ def run(shard, ctx):
                 st, r = ctx.call(lambda: (seq.play_NoteContainer(nc), seq.stop_NoteContainer(nc)))
             exp = [("play", MM.pitch_of(n) + 12, n[2], n[3]) for n in sorted(notes, key=MM.pitch_of)] + \
                   [("stop", MM.pitch_of(n) + 12, n[2]) for n in sorted(notes, key=MM.pitch_of)]
+            k = len(notes)
+            # plays come first, one per note in the container's order; then one stop per note (their order among
+            # themselves is not stated by the property)
+            okp = st == "ok" and r == (True, True) and len(seq.log) == 2 * k and seq.log[:k] == exp[:k] and \
+                sorted(seq.log[k:]) == sorted(exp[k:])
             ctx.check("events: a note or container produces one play event per note (pitch + 12, own channel and velocity) and one stop",
-                      st == "ok" and r == (True, True) and seq.log == exp, w, exp, seq.log if st == "ok" else repr(r), mechanism="primitive")
+                      okp, w, exp, seq.log if st == "ok" else repr(r), mechanism="primitive")
             ctx.check("observer: attached observers receive exactly the sequencer's own event sequence", obs.log == seq.log, w, seq.log[:6],
                       obs.log[:6], mechanism="observer")
             ctx.case(("prim", repr(notes)))
@@ -371,8 +376,8 @@ def run(shard, ctx):
                 prog = 1
                 if t["instrument"] and t["instrument"]["kind"] == "midi" and t["instrument"].get("name_index") is not None:
                     prog = MidiInstrument.names.index(MidiInstrument.names[t["instrument"]["name_index"]])
-                exp_instr.append(("instr", channels[ti], prog, 0))
-            got_instr = log[:len(exp_instr)]
+                exp_instr.append(("instr", channels[ti], prog))
+            got_instr = [e[:3] for e in log[:len(exp_instr)]]        # the bank is not part of the statement
             ctx.check("instrument: playing tracks first announces one instrument change per track on its channel", got_instr == exp_instr,
                       w, exp_instr, got_instr, mechanism="instr")
             n_instr = len(exp_instr)
